@@ -246,6 +246,20 @@ def run(prop, tier, seed):
                                                         if k.get("refuted") else
                                                         {"refuted_by_TLC": False, "note": "not needed by any listed property at the model's granularity (field segments are atomic)"})
                                                     for f, k in kill.items()}}
+        if prop == "C14":
+            # design level: no reachable state of the interleaving graphs from which the operations cannot all return
+            t1 = time.time()
+            traps = {}
+            for fam, sc in (("point", False), ("scan", True)):
+                ta, ta_reused = olcart.trap_analysis_cached(tier, scans=sc)
+                traps[fam] = dict(ta, tlc_run_reused_from_sibling_check=ta_reused)
+                if ta["trap_states"]:
+                    raise vlib.CheckBroken("OlcArt design has trap states (operations that can never all return): %s"
+                                           % json.dumps(ta["traps"])[:1500])
+                if not ta_reused:
+                    cov["states"] += ta["states"]
+            cov["olcart_model"]["no_trap"] = traps
+            phases["olcart_no_trap"] = round(time.time() - t1, 1)
         if prop in ("C03", "C09"):
             d = os.path.join(vlib.CACHE, "olc_kill_%d" % os.getpid())
             shutil.rmtree(d, ignore_errors=True)
